@@ -76,5 +76,5 @@ def instances(pid, n=30):
             value = solid(rng, SAFE.replace('{', '').replace('}', ''), 1, 12).replace("'", '')
             pre, post = first_then(rng, 0, 8), text(rng, SAFE.replace('}', ''), 0, 8).rstrip()
             out.append(("{%s}='%s'\n\n%s{%s}%s" % (name, value, pre, name, post), '<p>%s%s%s</p>' % (esc(pre), esc(value), esc(post)),
-                        'theorem-instance:C11_invocation_equals_substitution'))
+                        'theorem-instance:C11_definition_line+C11_invocation_equals_substitution'))
     return out
